@@ -61,7 +61,7 @@ def numpy_to_blackbird(A, var_name):
         script = ["complex array {}[{}, {}] =".format(var_name, *A.shape)]
         for row in A:
             row_str = "    " + ", ".join(
-                ["{0}{1}{2}j".format(n.real, "+-"[int(n.imag < 0)], abs(n.imag)) for n in row]
+                ["{0}{1}{2}j".format(n.real, "+-"[int(np.signbit(n.imag))], abs(n.imag)) for n in row]
             )
             script.append(row_str)
 
@@ -105,7 +105,7 @@ def _value_to_blackbird(v):
         return '"{}"'.format(v)
 
     if isinstance(v, complex):
-        return "{}{}{}j".format(v.real, "+-"[int(v.imag < 0)], np.abs(v.imag))
+        return "{}{}{}j".format(v.real, "+-"[int(np.signbit(v.imag))], np.abs(v.imag))
 
     if isinstance(v, sym.Expr):
         return _expr_to_blackbird(v)
@@ -453,7 +453,7 @@ class BlackbirdProgram:
 
                     elif isinstance(v, complex):
                         # argument is a complex type
-                        args.append("{}{}{}j".format(v.real, "+-"[int(v.imag < 0)], np.abs(v.imag)))
+                        args.append("{}{}{}j".format(v.real, "+-"[int(np.signbit(v.imag))], np.abs(v.imag)))
 
                     elif isinstance(v, sym.Expr):
                         # argument contains free parameters
@@ -491,7 +491,7 @@ class BlackbirdProgram:
 
                     elif isinstance(v, complex):
                         kwargs.append(
-                            "{}={}{}{}j".format(k, v.real, "+-"[int(v.imag < 0)], np.abs(v.imag))
+                            "{}={}{}{}j".format(k, v.real, "+-"[int(np.signbit(v.imag))], np.abs(v.imag))
                         )
 
                     elif isinstance(v, sym.Expr):
